@@ -33,10 +33,10 @@ def signIn : Dir → ObjVal → ObjVal
   | .max, .single x => .single x.neg
   | .max, .multi xs => .multi (xs.map Num.neg)
 
-/-- the weight-count check and `np.dot(cost, weights)` (abstract.py:85-90). -/
+/-- the weight-count check, `np.dot(np.atleast_1d(cost), weights)` and the unpacking of a one-element list (abstract.py:85-97). -/
 def weigh (dot : List Num → List Num → Num) : Option (List Num) → ObjVal → Except Err Num
   | none, .single x => .ok x
-  | none, .multi [_] => .error .validationError       -- one objective in a list, no weights: a list reaches `Agent(cost=…)`
+  | none, .multi [x] => .ok x                         -- one objective in a one-element list, no weights: `cost, = cost`
   | none, .multi _ => .error .valueError
   | some w, .single x => if w.length = 1 then .ok (dot [x] w) else .error .valueError
   | some w, .multi xs => if w.length = xs.length then .ok (dot xs w) else .error .valueError
